@@ -49,6 +49,7 @@ type fsCrash struct{ at int }
 var FS *fsModelT
 
 func resetFS() {
+	fsSchedLevel = 0
 	FS = &fsModelT{files: map[string]*fsNode{}, dirs: map[string]bool{}, failAt: -1, crashAt: -1, pid: 4242}
 }
 
@@ -62,6 +63,16 @@ type modelFile struct {
 }
 
 // step numbers a mutating operation; it returns false when the operation is to fail (fault injection)
+// fsSchedLevel makes file-system calls scheduling points (system calls are natural pre-emption points):
+// 1 = name-space operations (open / create / remove / rename / mkdir / readdir / stat / readfile), 2 = reads and writes too.
+var fsSchedLevel int
+
+var fsSchedOps = map[string]int{
+	"os.MkdirAll": 1, "os.OpenFile": 1, "os.Create": 1, "os.Open": 1, "os.Remove": 1, "os.Rename": 1, "os.ReadDir": 1,
+	"os.Stat": 1, "os.Lstat": 1, "os.ReadFile": 1, "os.WriteFile": 1, "os.RemoveAll": 1,
+	"(*os.File).Write": 2, "(*os.File).WriteString": 2, "(*os.File).Read": 2, "(*os.File).Close": 2,
+}
+
 func (f *fsModelT) step(kind, path string, n int) bool {
 	idx := f.ops
 	if f.crashAt == idx {
@@ -230,6 +241,26 @@ func init() {
 		},
 		"(*os.unixDirent).Type": func(fr *frame, a []value) value { return uint32(0) },
 		"os.Lstat": func(fr *frame, a []value) value { return externals["os.Stat"](fr, a) },
+		"os.ReadFile": func(fr *frame, a []value) value {
+			p := a[0].(string)
+			node := FS.files[p]
+			if node == nil {
+				return tuple{[]value(nil), errNotExist(fr, "open", p)}
+			}
+			out := make([]value, len(node.data))
+			copy(out, node.data)
+			return tuple{out, iface{}}
+		},
+		"(*os.File).Stat": func(fr *frame, a []value) value {
+			mf := asModelFile(a[0])
+			T := fr.i.prog.ImportedPackage("os").Type("fileStat").Object().Type()
+			st := zero(T).(structure)
+			st[0] = mf.path
+			st[1] = int64(len(mf.node.data))
+			var cell value = st
+			return tuple{iface{t: types.NewPointer(T), v: &cell}, iface{}}
+		},
+		cometPath + ".vFSSched": func(fr *frame, a []value) value { fsSchedLevel = asInt(a[0]); return nil },
 		"os.Stat": func(fr *frame, a []value) value {
 			p := a[0].(string)
 			node := FS.files[p]
@@ -474,6 +505,15 @@ func init() {
 			return crashed
 		},
 	} {
+		if lvl := fsSchedOps[k]; lvl > 0 {
+			inner, name := v, k
+			v = func(fr *frame, a []value) value {
+				if fsSchedLevel >= lvl {
+					schedPoint(fr, "fs:"+name)
+				}
+				return inner(fr, a)
+			}
+		}
 		externals[k] = v
 	}
 }
